@@ -374,6 +374,13 @@ def run_op(h, op, probes, snapshot0):
             child.to_schema()
             _safe(lambda: child.validate(h.obj(probes[0]), lazy=True))
         attempt(sub)
+    elif name == "model_empty":
+        # further class-level entry points of a model: each builds something from the compiled schema
+        attempt(lambda: h.Model.empty())
+    elif name == "model_json_schema":
+        attempt(lambda: h.Model.to_json_schema())
+    elif name == "model_get_metadata":
+        attempt(lambda: h.Model.get_metadata())
     elif name == "model_edit_returned":
         def edit():
             handed_out = h.Model.to_schema()  # the caller's own schema object, as far as the API says
